@@ -1,4 +1,6 @@
 import ColaVerif.Lemmas.DiagTraceSound
+import ColaVerif.Lemmas.DiagTraceDtype
+import ColaVerif.Lemmas.DiagTraceSel
 import ColaVerif.Lemmas.Bridge
 import Mathlib.LinearAlgebra.Matrix.Trace
 
@@ -16,9 +18,18 @@ through `Sliced`, `A @ chunk`, shifted chunk, row sums, trimming) with the hard-
 rule of `cola/linalg/trace/diag_trace.py`; `.error _` = the call refuses.
 
 Hypotheses: `A.wf`, `A.dupSlice = false`, `A.HermOK` (those of C01, `Op.Good`; `dupSlice` is C01's
-recorded clause `sliced-repeated-index`, a hypothesis of `Op.mm_eq`).  C08 has no clause of its own any more: the two defects found while building this check
+recorded clause `sliced-repeated-index`, a hypothesis of `Op.mm_eq`).  The two VALUE defects found while building this check
 (`diag(BlockDiag)` / `diag(Kronecker)` with non-square members returned wrong values) are repaired in
 /repo — the rules now refuse — and are kept below as regression lemmas.
+
+Result dtype (round 2): `Op.diagDt A k`, `Op.traceDt A` (Model/DiagTraceDtype.lean) — the dtype of the
+array / NumPy scalar the rules and the probing loop return (`some dt`; `none` = no floating array);
+specification `A.dtypeSpec` (Model/Dtype.lean: NumPy promotion of the leaf dtypes, stated on the
+lattice).  One clause: `bdiag-zero-multiplicity` (`Op.ruleZeroMult`), see `C08_dtype_clause_needed`.
+
+Rule selection (round 2): `Op.diagRuleSig alg A`, `Op.traceRuleSig alg A`, `Op.diagRuleTable`,
+`Op.traceRuleTable` (Model/DiagTraceSel.lean) — compared with the live dispatch table of /repo on
+every run (harness/props/c08.py, stream D and every case of stream A).
 -/
 
 namespace C08
@@ -162,15 +173,102 @@ theorem C08_regression_factor :
   · simp [Op.diagCode, Op.rows, Op.cols]
   · simp [Op.diagK, Op.den, Op.rows, Op.cols, kronDen, kronEntry, unravel, List.range_succ]
 
-/-- non-vacuity: a nested square tree with a BlockDiag with multiplicities, a Kronecker product,
-a KronSum, a Sum, a ScalarMul, a product and a generic operator satisfies every hypothesis of the
-theorems (`HermOK` is C05's business; here all annotation sets are checked directly). -/
-example :
+/-- **non-vacuity of every hypothesis bundle** (`wf`, `dupSlice = false`, `HermOK`, square, and the
+dtype clause `ruleZeroMult = false`) on a nested 4×4 tree of MIXED dtypes (f32, f64, c64) with a
+BlockDiag with multiplicities, a Kronecker product, a KronSum, a Sum, a ScalarMul, a product and a
+generic operator; its result dtype is complex128. -/
+theorem C08_hypotheses_witness :
     let A : Op Int := .sum [
-      .bdiag [.kron [.dense .f64 2 2 (fun i j => (i : Int) + j), .eye .f64 1], .scalar .f64 3 1] [1, 2],
-      .kronsum [.diag .f64 2 (fun i => (i : Int) + 1), .generic (.prod [.dense .f64 2 2 (fun i j => (i : Int) - j), .dense .f64 2 2 (fun _ _ => 1)])]]
-    A.wf = true ∧ A.dupSlice = false ∧ A.rows = A.cols := by
-  simp [Op.wf, Op.dupSlice, Op.rows, Op.cols, Op.dotSum, Op.chainOk]
+      .bdiag [.kron [.dense .f64 2 2 (fun i j => (i : Int) + j), .eye .f32 1], .scalar .c64 3 1] [1, 2],
+      .kronsum [.diag .f32 2 (fun i => (i : Int) + 1), .generic (.prod [.dense .f64 2 2 (fun i j => (i : Int) - j), .dense .f32 2 2 (fun _ _ => 1)])]]
+    A.wf = true ∧ A.dupSlice = false ∧ A.HermOK ∧ A.rows = A.cols ∧ A.rows = 4 ∧
+      A.ruleZeroMult = false ∧ A.dtypeSpec = .c128 ∧ diagDt A 0 = some .c128 ∧ traceDt A = some .c128 := by
+  refine ⟨?_, ?_, ?_, ?_, ?_, ?_, ?_, ?_, ?_⟩
+  · simp [Op.wf, Op.rows, Op.cols, Op.dotSum, Op.chainOk]
+  · simp [Op.dupSlice]
+  · simp [Op.HermOK, Op.HermNode, Op.isa, Op.anns, AnnSet.isa, AnnSet.interAll, AnnSet.inter, AnnSet.diff,
+      Op.rows, Op.cols, Op.dotSum, Op.isTA, Op.isT, Op.areTheSame, Op.isScalarMul, Op.dtype, DType.isComplex, Op.core]
+  · simp [Op.rows, Op.cols, Op.dotSum]
+  · simp [Op.rows, Op.dotSum]
+  · simp [Op.ruleZeroMult]
+  · simp [Op.dtypeSpec, Op.leafDtypes, DType.join, DType.isComplex, DType.isDouble, DType.mk]
+  · rw [diagDt_eq_spec _ (by simp [Op.wf, Op.rows, Op.cols, Op.dotSum, Op.chainOk]) (by simp [Op.ruleZeroMult])]
+    simp [Op.dtypeSpec, Op.leafDtypes, DType.join, DType.isComplex, DType.isDouble, DType.mk]
+  · rw [traceDt_eq_spec _ (by simp [Op.wf, Op.rows, Op.cols, Op.dotSum, Op.chainOk]) (by simp [Op.ruleZeroMult])]
+    simp [Op.dtypeSpec, Op.leafDtypes, DType.join, DType.isComplex, DType.isDouble, DType.mk]
+
+/-! ## result dtype -/
+
+section dtype
+variable {S : Type}
+
+/-- **C08 (result dtype of `diag`, every rule).**  For every tree whose member lists are non-empty
+(`wf`) and which has no zero-multiplicity block on the path of the structural rules, every offset:
+the array `diag(A, k, alg)` returns has the NumPy promotion of the dtypes of the leaves of `A`
+(complex iff some leaf is complex, double precision iff some leaf is) — whatever mix of float32 /
+float64 / complex64 / complex128 the members of Sum / BlockDiag / Kronecker / KronSum / Product have,
+through ScalarMul, Identity, declaration wrappers and the probing loop. -/
+theorem C08_dtype_diag_partial (A : Op S) (hwf : A.wf = true) (hz : A.ruleZeroMult = false) (k : Int) :
+    diagDt A k = some A.dtypeSpec :=
+  diagDt_eq_spec A hwf hz k
+
+/-- **C08 (result dtype of `trace`).** -/
+theorem C08_dtype_trace_partial (A : Op S) (hwf : A.wf = true) (hz : A.ruleZeroMult = false) :
+    traceDt A = some A.dtypeSpec :=
+  traceDt_eq_spec A hwf hz
+
+/-- the same against the dtype the constructors compute (`A.dtype`, what `A.dtype` / `A.to_dense().dtype`
+report; `Op.dtype_eq_dtypeSpec`) -/
+theorem C08_dtype_is_operator_dtype (A : Op S) (hwf : A.wf = true) (hz : A.ruleZeroMult = false) (k : Int) :
+    diagDt A k = some A.dtype ∧ traceDt A = some A.dtype := by
+  rw [dtype_eq_dtypeSpec]
+  exact ⟨diagDt_eq_spec A hwf hz k, traceDt_eq_spec A hwf hz⟩
+
+/-- **C08 (result dtype of the probing loop)**: no hypothesis at all — chunk, shifted chunk, `A @ chunk`,
+the product, the row sums and the weak Python `0.` accumulate to the promotion of the leaf dtypes -/
+theorem C08_dtype_exact (A : Op S) (k : Int) : exactDiagDt A k = some A.dtypeSpec :=
+  exactDiagDt_eq A k
+
+/-- **the clause `bdiag-zero-multiplicity` is needed**: the well-formed square
+`BlockDiag(Dense(float32 2×2), Dense(complex64 1×1), multiplicities=[1, 0])` has `dtype` complex64 (the
+constructor promotes over ALL blocks) but the rule concatenates the diagonals of the blocks that are
+present: the result is float32. -/
+theorem C08_dtype_clause_needed :
+    let A : Op Int := .bdiag [.dense .f32 2 2 (fun i j => (i : Int) + j), .dense .c64 1 1 (fun _ _ => 1)] [1, 0]
+    A.wf = true ∧ A.rows = A.cols ∧ A.ruleZeroMult = true ∧ diagDt A 0 = some .f32 ∧ traceDt A = some .f32 ∧
+      A.dtypeSpec = .c64 ∧ A.dtype = .c64 := by
+  refine ⟨?_, ?_, ?_, ?_, ?_, ?_, ?_⟩
+  · simp [Op.wf]
+  · simp [Op.rows, Op.cols, Op.dotSum]
+  · simp [Op.ruleZeroMult]
+  · simp [Op.diagDt, Op.seqO, Op.concatDt]
+  · simp [Op.traceDt, Op.diagDt, Op.seqO, Op.concatDt]
+  · simp [Op.dtypeSpec, Op.leafDtypes, DType.join, DType.isComplex, DType.isDouble, DType.mk]
+  · simp [Op.dtype, DType.promote, DType.isComplex, DType.isDouble, DType.mk]
+
+end dtype
+
+/-! ## rule selection -/
+
+/-- **C08 (rule table).**  Whatever the operator and the class of the algorithm object, the method of
+`diag` / `trace` the model applies is one of the methods of its table (the table that is compared
+with the live dispatch table of /repo on every run). -/
+theorem C08_rule_table {S : Type} (alg : AlgK) (A : Op S) :
+    diagRuleSig alg A ∈ diagRuleTable ∧ traceRuleSig alg A ∈ traceRuleTable :=
+  ⟨diagRuleSig_mem alg A, traceRuleSig_mem alg A⟩
+
+/-- the selected method's first-position class is the class of the operator object, `Dense` for a
+`Triangular`, or `LinearOperator` (never an unrelated class) -/
+theorem C08_rule_superclass {S : Type} (A : Op S) : A.diagRuleClass = A.className ∨
+    (A.className = "cola.ops.operators.Triangular" ∧ A.diagRuleClass = "cola.ops.operators.Dense") ∨
+    A.diagRuleClass = clsLinOp :=
+  diagRuleClass_super A
+
+/-- where the selection names the `LinearOperator` methods, `diagCode` IS the generic path (the `Auto`
+decision and the probing loop on the operator object, declaration wrappers stripped) -/
+theorem C08_rule_generic (bs0 : Nat) (alg : Alg) (A : Op R) (k : Int)
+    (h : A.diagRuleClass = clsLinOp) : diagCode bs0 alg A k = genericDiag bs0 alg A.core k :=
+  diagCode_generic_rule bs0 alg A k h
 
 end C08
 
@@ -187,6 +285,15 @@ end C08
 #print axioms C08.C08_spec_is_mathlib_diag
 #print axioms C08.C08_regression_block
 #print axioms C08.C08_regression_factor
+#print axioms C08.C08_hypotheses_witness
+#print axioms C08.C08_dtype_diag_partial
+#print axioms C08.C08_dtype_trace_partial
+#print axioms C08.C08_dtype_is_operator_dtype
+#print axioms C08.C08_dtype_exact
+#print axioms C08.C08_dtype_clause_needed
+#print axioms C08.C08_rule_table
+#print axioms C08.C08_rule_superclass
+#print axioms C08.C08_rule_generic
 #print axioms Op.idCols_eq
 #print axioms Op.chunk_partition
 #print axioms Op.kron_trace_list
